@@ -28,6 +28,7 @@ vars == <<l, failed, viol, drift, st, outs>>
 NewRun(e) == [kind |-> e.kind, ph |-> IF e.kind = "dec" THEN "dec" ELSE "enc",
               L1 |-> e.l1, L2 |-> e.l2, iid |-> e.iid,
               pre |-> e.pre,              \* bytes that were already in the OwningIovec given to new_from_iovec
+              preHole |-> e.pre_hole,     \* ... of which the first preHole are a placeholder the caller fills after finish
               input |-> e.input,          \* what is fed in the current phase
               plain |-> e.input,          \* the plain bytes of an "enc"/"rt" run
               pos |-> 0,                  \* bytes fed so far
@@ -42,14 +43,15 @@ NewRun(e) == [kind |-> e.kind, ph |-> IF e.kind = "dec" THEN "dec" ELSE "enc",
 CapViol(v, new) == v \cup {x \in new : Cardinality({y \in v : y.prop = x.prop}) < 25}
 
 Init == l = 1 /\ failed = FALSE /\ viol = {} /\ drift = {} /\ outs = [iid |-> 0, input |-> << >>, out |-> << >>] /\
-        st = [kind |-> "none", ph |-> "none", L1 |-> 1, L2 |-> 1, iid |-> 0, pre |-> << >>, input |-> << >>,
+        st = [kind |-> "none", ph |-> "none", L1 |-> 1, L2 |-> 1, iid |-> 0, pre |-> << >>, preHole |-> 0, input |-> << >>,
               plain |-> << >>, pos |-> 0, vis |-> << >>, D |-> 0, total |-> 0, stable |-> 0,
               ist |-> [on |-> FALSE, enc |-> EncNew(1), dec |-> DecNew], live0 |-> 0, chunks0 |-> 0]
 
 V(prop, what) == {<<prop, what>>}
 When(c, S) == IF c THEN S ELSE {}
 
-LagBound(s) == IF s.ph = "enc" THEN MaxArenaChunk + s.L2 + 2 ELSE 0
+\* (while the caller's own placeholder at the head of the iovec is pending nothing is consumable: no bound applies)
+LagBound(s) == IF s.preHole > 0 THEN 2000000000 ELSE IF s.ph = "enc" THEN MaxArenaChunk + s.L2 + 2 ELSE 0
 
 \* Observation after any feed/drain event: counts, lag, and (when logged in full) the visible
 \* bytes, which must be consistent with everything observed before (a byte once observed
@@ -58,7 +60,9 @@ ObsCheck(s, e, Dnew) ==
      When(e.dangling > 0, V("C05", "a slice exposed by the codec's consumer does not lie in a live arena chunk or the lent input"))
 \cup When(e.total < e.stable, V("C09", "stable bytes exceed total_size"))
 \cup When(e.total - e.stable > LagBound(s), V("C09", "lag (produced but not consumable) exceeds the bound"))
-\cup When(s.ph = "dec" /\ e.pending = 1, V("C09", "decoder has a pending backpatch (non-zero lag)"))
+\cup When(s.ph = "dec" /\ e.pending = 1 /\ s.preHole = 0, V("C09", "decoder has a pending backpatch (non-zero lag)"))
+\cup When(s.preHole > 0 /\ e.stable > 0,
+          V("C09", "bytes are consumable although a placeholder registered earlier in the same OwningIovec is still pending"))
 \cup When(e.empty_slice = 1, V("C09", "an exposed slice is empty"))
 \cup When(e.full = 1 /\ Len(e.sb) # e.stable, V("C09", "stable byte count differs from the stable slices"))
 \cup When(e.full = 1 /\
@@ -86,10 +90,10 @@ FeedDrift(s0, s1, e) ==
            stb == e.stable + s0.D - Len(s0.pre)
        IN IF s0.ph = "enc"
           \* (the consumable prefix ends at a slice boundary of the iovec: at most what precedes the pending header)
-          THEN When(e.err = "" /\ (s1.ist.enc.bad \/ Len(s1.ist.enc.out) # app \/ Len(EncStable(s1.ist.enc)) < stb),
+          THEN When(e.err = "" /\ (s1.ist.enc.bad \/ Len(s1.ist.enc.out) # app \/ (s0.preHole = 0 /\ Len(EncStable(s1.ist.enc)) < stb)),
                     {"encoder: appended byte count differs from / consumable bytes exceed the transcribed state machine"})
           ELSE When((e.err # "") # s1.ist.dec.err, {"decoder: rejects / accepts a piece unlike the transcribed state machine"})
-          \cup When(e.err = "" /\ ~s1.ist.dec.err /\ (Len(s1.ist.dec.out) # app \/ stb # app),
+          \cup When(e.err = "" /\ ~s1.ist.dec.err /\ (Len(s1.ist.dec.out) # app \/ (s0.preHole = 0 /\ stb # app)),
                     {"decoder: decoded byte count after a piece differs from the transcribed state machine"})
 
 Feed(s, e) ==
